@@ -91,7 +91,7 @@ def is_cut(rq):
 def is_env_fault(rq):
     """requests whose outcome depends on a failure of the environment in mid-flight (an upstream dying inside its answer,
     a client half-closing): checked by the monitors only, left out of the Coq comparison, always last in a cluster"""
-    return is_cut(rq) or bool(rq.get("half_close"))
+    return is_cut(rq) or bool(rq.get("half_close")) or rq.get("burst", 0) > 1
 
 
 def truth_views(nodes):
@@ -574,6 +574,18 @@ def gen_timeout_cluster(rng, cid):
     return {"id": cid, "timeout_ms": TIMEOUT_MS, "kind": "timeout", "nodes": nodes, "requests": reqs}
 
 
+def agent_burst_cluster(cid, copies=16, idle=2, delay=200, timeout=1000):
+    """an agent whose http client keeps at most `idle` idle connections serves `copies` concurrent slow requests: the idle
+    pool size is not a cap on requests in flight (seeded change C08-6)"""
+    nodes = [{"id": "n0", "upstreams": [up("u1", "e")], "view": []}, {"id": "n1", "upstreams": [], "view": []}]
+    truth_views(nodes)
+    slow = mk_resp(200, body={"hex": H("slow")}); slow["delay_ms"] = delay
+    r1 = http_req(0, host="e.example.com", resp=slow); r1["burst"] = copies
+    r2 = http_req(1, host="e.example.com", resp=copy.deepcopy(slow)); r2["burst"] = copies
+    return {"id": cid, "timeout_ms": timeout, "kind": "consistent", "via_agent": True, "agent_idle": idle, "nodes": nodes,
+            "requests": [http_req(0, host="e.example.com"), r1, r2]}
+
+
 def gen_cluster(rng, cid, profile):
     if rng.random() < profile.get("p_dynamic", 0.0):
         return gen_dynamic_cluster(rng, cid)
@@ -832,6 +844,16 @@ def monitor_c08(cl, ri, rq, ob):
         if not ob.get("err"):
             return fail("truncated-as-complete", "the upstream died after %d of %d body bytes, the client was shown a complete %d response with %d bytes"
                         % (rq["resp"]["cut_after"], body_len(rq["resp"].get("body")), st, (ob.get("resp") or {}).get("body_len", -1)))
+        return None
+    if rq.get("burst", 0) > 1:
+        # the same request sent several times at once to an upstream that answers each copy after delay_ms: every copy gets the
+        # upstream's answer; a 504 is only ever piko's answer to an upstream that did not answer in time, and this one did
+        want = rq["resp"]["status"]
+        bad = [(k, st_) for k, st_ in enumerate(ob.get("burst_status") or []) if st_ != want or not (ob.get("burst_stamped") or [])[k]]
+        if bad:
+            return fail("burst", "%d copies of the request were sent at once to a healthy upstream (answers after %d ms, proxy timeout %d ms): copy %d was answered %d%s; statuses %s, times %s ms"
+                        % (rq["burst"], rq["resp"].get("delay_ms", 0), cl["timeout_ms"], bad[0][0], bad[0][1],
+                           "" if (ob.get("burst_stamped") or [])[bad[0][0]] else " by piko itself", ob.get("burst_status"), ob.get("burst_ms")))
         return None
     if rq.get("half_close"):
         # a client that has shut down its sending side still gets an answer: the upstream's, or one of piko's own
@@ -1205,6 +1227,7 @@ def run_property(ctx, pid, nclusters_quick, nhosts):
     nclusters = nclusters_quick if tier == "quick" else nclusters_quick * 15
     profile = PROFILES[pid]
     clusters = corpus() + [gen_dynamic_cluster(random.Random(7 + k), "corpus-dyn-" + sc, sc) for k, sc in enumerate(["reconnect", "twins", "goaway", "flaky"])] \
+        + ([agent_burst_cluster("corpus-agent-burst")] if pid == "C08" else []) \
         + [gen_cluster(rng, "g%d" % i, profile) for i in range(nclusters)]
     hosts = gen_hosts(rng, nhosts if tier == "quick" else nhosts * 10)
     for hp in ["e.example.com", "e.example.com:8000", "1.2.3.4", "[::1]:80", "localhost", "", "e.example.com.", "a.b:c:d", "[e.x]:80", "[::ffff:1.2.3.4]"]:
@@ -1231,6 +1254,13 @@ def run_property(ctx, pid, nclusters_quick, nhosts):
             continue
         seen.add(f["sig"])
         cl = clusters[ci]
+        if f["sig"] == "burst":
+            # timing: a copy that misses the proxy timeout on an overloaded machine looks the same; it counts only if it
+            # reproduces in two further runs of the cluster
+            again = [run_monitor(pid, [cl], run_clusters(binary, ctx["wd"], [cl], tag="rerun")["clusters"]) for _ in range(2)]
+            if not all(any(g["sig"] == "burst" for _, _, g in a) for a in again):
+                log("[%s] burst failure of cluster %s did not reproduce (machine load); not reported" % (pid, cl["id"]))
+                continue
         if f["sig"] == "panic":
             small = cl
         else:
